@@ -97,6 +97,22 @@ def run(chk):
         pops = [blk for blk, t in b.calls_to(r"VecDeque::<T, A>::(pop_front|pop_back)$") if on_data(describe(prog, b, t["args"][0]))]
         rems = [(blk, t) for blk, t in b.calls_to(r"VecDeque::<T, A>::(remove|swap_remove_back|swap_remove_front)$") if on_data(describe(prog, b, t["args"][0]))]
         pushes = [(blk, t) for blk, t in b.calls_to(r"VecDeque::<T, A>::(push_back|push_front)$") if on_data(describe(prog, b, t["args"][0]))]
+        # every other way of changing the queue's contents is unaccounted for: cache_size would stop being the sum of the stored lengths
+        known = set(pops) | set(x[0] for x in rems) | set(x[0] for x in pushes)
+        for fam_b in [b] + prog.all_closures_of(C + "::set") + [prog.bodies[x] for x in (C + "::get",) if x in prog.bodies]:
+            for blk, t in fam_b.calls():
+                tys = t.get("arg_tys") or []
+                if not tys or not tys[0].startswith("&mut std::collections::VecDeque"):
+                    continue
+                if fam_b is b and blk in known:
+                    continue
+                if core.re.search(r"VecDeque::<T, A>::(iter_mut|get_mut|front_mut|back_mut|as_mut_slices|make_contiguous|reserve|reserve_exact|shrink_to_fit|index_mut)$|IndexMut", t["callee"]):
+                    continue
+                if not desc_contains(core.describe_r(prog, fam_b, t["args"][0]), lambda y: y[0] == "field" and y[2] == ix["data"]):
+                    continue
+                chk.ob("R2.pairing", fam_b.path, f"queue mutation {core.short(t['callee'])} is one of the accounted operations (pop_front / remove / push_back with its cache_size update)", False,
+                       f"{t['callee']} adds or removes entries without the matching cache_size update: the recorded size drifts from the bytes actually stored "
+                       "(phantom bytes evict live entries or make `set` index an empty queue)", where=fam_b.where(blk))
         chk.floor("eviction site", len(pops), 1)
         chk.floor("replace site", len(rems), 1)
         chk.floor("insert site", len(pushes), 1)
